@@ -566,6 +566,13 @@ Lemma ubi_by_flag : forall b : bool,
   if b then (exists amount, 0 <= amount < two64 /\ ubi_mint_on b amount = Panic "neg-coin")
   else (forall amount, is_panic (ubi_mint_on b amount) = false).
 Proof. intros [|]; [exists two63; split; [unfold two63, two64; lia|reflexivity]|reflexivity]. Qed.
+Lemma ubi_apply_by_flag : forall b : bool,
+  if b then (exists s a h, ubi_apply_on b s a 0 h = Panic "div-by-zero")
+  else (forall s a p h, is_panic (ubi_apply_on b s a p h) = false).
+Proof.
+  intros [|]; [exists 0, 1, 1; reflexivity|]. intros s a p h. unfold ubi_apply_on, ubi_apply_exact.
+  destruct (p =? 0); [reflexivity|]. destruct (h <? _); reflexivity.
+Qed.
 Lemma spend_by_flag : forall b : bool,
   if b then (forall now ps, forallb pool_bounded ps = true -> is_panic (spend_endblock b now ps) = false)
   else (exists ops, srun b ops = Panic "div-by-zero").
